@@ -20,12 +20,12 @@ use crate::storage::{extract_raw_data, KeyPrefix};
 const LAST_N: u64 = 5;
 
 /// one index fact: (script, block, tx hash, cell index, is output)
-type Fact = (u64, u64, Byte32, u32, bool);
+pub(crate) type Fact = (u64, u64, Byte32, u32, bool);
 /// one live cell: (script, creating block, tx hash, output index)
-type Cell = (u64, u64, Byte32, u32);
+pub(crate) type Cell = (u64, u64, Byte32, u32);
 
 #[derive(Clone)]
-struct Live {
+pub(crate) struct Live {
     tx_hash: Byte32,
     index: u32,
     sid: u64,
@@ -34,20 +34,20 @@ struct Live {
 
 pub struct Branch {
     pub chain: SimChain,
-    facts: Vec<Fact>,
+    pub(crate) facts: Vec<Fact>,
     /// live outputs after block i
-    live_at: Vec<Vec<Live>>,
+    pub(crate) live_at: Vec<Vec<Live>>,
 }
 
 impl Branch {
-    fn new() -> Branch {
+    pub(crate) fn new() -> Branch {
         Branch {
             chain: SimChain::new_dummy(),
             facts: Vec::new(),
             live_at: vec![Vec::new()],
         }
     }
-    fn extend(&mut self, rng: &mut Rng, n: u64, salt: u64) {
+    pub(crate) fn extend(&mut self, rng: &mut Rng, n: u64, salt: u64) {
         for _ in 0..n {
             let b = self.chain.tip_number() + 1;
             let mut live = self.live_at.last().cloned().unwrap_or_default();
@@ -87,14 +87,14 @@ impl Branch {
             self.live_at.push(live);
         }
     }
-    fn fork_of(&self, at: u64, salt: u64) -> Branch {
+    pub(crate) fn fork_of(&self, at: u64, salt: u64) -> Branch {
         Branch {
             chain: self.chain.fork(at, salt),
             facts: self.facts.iter().filter(|f| f.1 <= at).cloned().collect(),
             live_at: self.live_at[..=at as usize].to_vec(),
         }
     }
-    fn cells(&self) -> BTreeSet<Cell> {
+    pub(crate) fn cells(&self) -> BTreeSet<Cell> {
         self.live_at
             .last()
             .map(|l| l.iter().map(|c| (c.sid, c.block, c.tx_hash.clone(), c.index)).collect())
@@ -114,7 +114,7 @@ fn sid_of_raw(raw: &[u8]) -> Option<u64> {
 }
 
 /// everything the index says: history facts and live cells of the three scripts
-fn index_dump(node: &Node) -> (BTreeSet<Fact>, BTreeSet<Cell>) {
+pub(crate) fn index_dump(node: &Node) -> (BTreeSet<Fact>, BTreeSet<Cell>) {
     use rocksdb::{prelude::*, Direction, IteratorMode};
     let db = &node.i().storage.db;
     let mut facts = BTreeSet::new();
@@ -183,7 +183,7 @@ fn stale_record(node: &Node, chain: &SimChain) -> bool {
     observe(node, chain).records.iter().any(|r| r.2.iter().any(|n| *n == 999_999))
 }
 
-fn short(h: &Byte32) -> String {
+pub(crate) fn short(h: &Byte32) -> String {
     format!("{:x}", h)[..8].to_string()
 }
 
@@ -227,7 +227,7 @@ fn scenario(seed: u64, len: usize, growth_only: bool) -> Scenario {
     Scenario { branches, steps, desc }
 }
 
-fn parse_seeds(text: &str) -> Vec<(u64, usize)> {
+pub(crate) fn parse_seeds(text: &str) -> Vec<(u64, usize)> {
     text.lines()
         .filter_map(|l| {
             let t: Vec<&str> = l.split_whitespace().collect();
